@@ -107,6 +107,10 @@ def run(db, rep, tier):
                                  "(incl. preconditions of internal helpers and class invariants they rely on)", 150)
     r4(db, rep)
     r23(db, rep)
+    rep.rule("R5-cursor", "the cursor classes keep their own invariant: buffer_ and size_ move together under n <= size_, can_read(n) is "
+                          "size_ >= n, every byte access at the cursor is guarded for its length and followed by skip of that length", 60)
+    from rules import _cursor
+    _cursor.check(db, rep, "R5-cursor", 60)
     rep.explanation = ("Exception-escape analysis over the resolved call graph (class-hierarchy expansion of virtual calls, "
                        "try/catch filtering by the exception hierarchy). Residues of path-insensitivity are discharged only "
                        "by checked facts (value bound of the argument), never by per-site suppression.")
